@@ -1,6 +1,252 @@
 (* C13 — proofs about Model/Surface.v *)
-From PG Require Import Lib.Strs Model.Tags Model.Surface.
-From Coq Require Import Lia.
+From PG Require Import Lib.Strs Model.Tags Model.Surface Proofs.Tags.
+From Coq Require Import Lia PeanoNat.
 
-Lemma placeholder : strip [32;97;32] = [97].
-Proof. reflexivity. Qed.
+(* ====================================================================================== *)
+(* Part 1 — grouping: MocksEmitter (first tag, raw) vs EndpointsEmitter (every tag, key)   *)
+(* ====================================================================================== *)
+Section Grouping.
+  Variable tag_key : str -> str.
+  Variable score : str -> bool * N * N.
+
+  Definition single_tag (l : list op) : Prop := forall o, In o l -> (length (o_tags o) <= 1)%nat.
+  (* two first-tags with the same normalised key are the same string *)
+  Definition uniform (ts : list str) : Prop :=
+    forall a b, In a ts -> In b ts -> tag_key a = tag_key b -> a = b.
+
+  Lemma single_tag_default : forall o, (length (o_tags o) <= 1)%nat -> tags_or_default o = [first_tag o].
+  Proof.
+    intros o H. unfold tags_or_default, first_tag. destruct (o_tags o) as [|t [|t' r]]; simpl in *;
+      [reflexivity | reflexivity | lia].
+  Qed.
+
+  Definition keyify {V} (d : list (str * V)) : list (str * V) := map (fun tg => (tag_key (fst tg), snd tg)) d.
+
+  Lemma keyify_aappend : forall {V} (d : list (str * list V)) t (v : V),
+    (forall t0, In t0 (map fst d) -> tag_key t0 = tag_key t -> t0 = t) ->
+    keyify (aappend d t v) = aappend (keyify d) (tag_key t) v.
+  Proof.
+    induction d as [|[t0 g] d IH]; intros t v H; simpl; [reflexivity|].
+    destruct (str_eqb t t0) eqn:E.
+    - apply str_eqb_eq in E. subst t0. rewrite str_eqb_refl. reflexivity.
+    - assert (X : str_eqb (tag_key t) (tag_key t0) = false).
+      { apply str_eqb_neq. intro K. apply str_eqb_neq in E. apply E. symmetry.
+        apply H; [left; reflexivity | symmetry; exact K]. }
+      rewrite X. simpl. f_equal. apply IH. intros t1 Hin. apply H. right. exact Hin.
+  Qed.
+
+  Lemma aappend_keys_in : forall {V} (d : list (str * list V)) t (v : V) x,
+    In x (map fst (aappend d t v)) -> x = t \/ In x (map fst d).
+  Proof.
+    induction d as [|[t0 g] d IH]; intros t v x H; simpl in *.
+    - destruct H as [<-|[]]. left. reflexivity.
+    - destruct (str_eqb t t0); simpl in H.
+      + right. exact H.
+      + destruct H as [<-|H]; [right; left; reflexivity|].
+        destruct (IH _ _ _ H) as [->|H']; [left; reflexivity | right; right; exact H'].
+  Qed.
+
+  (* one fold, generic in what is appended (the operation itself, or its tag) *)
+  Lemma fold_keyify : forall {V} (f : op -> V) l (d : list (str * list V)),
+    uniform (map fst d ++ map first_tag l) ->
+    keyify (fold_left (fun d o => aappend d (first_tag o) (f o)) l d)
+    = fold_left (fun d o => aappend d (tag_key (first_tag o)) (f o)) l (keyify d).
+  Proof.
+    induction l as [|o l IH]; intros d U; simpl; [reflexivity|].
+    rewrite IH.
+    - f_equal. apply keyify_aappend. intros t0 Hin K. apply U; [| |exact K].
+      + apply in_or_app. left. exact Hin.
+      + apply in_or_app. right. left. reflexivity.
+    - intros a b Ha Hb K. apply U; [| |exact K].
+      + apply in_app_or in Ha. destruct Ha as [Ha|Ha].
+        * destruct (aappend_keys_in _ _ _ _ Ha) as [->|Ha'].
+          -- apply in_or_app. right. left. reflexivity.
+          -- apply in_or_app. left. exact Ha'.
+        * apply in_or_app. right. right. exact Ha.
+      + apply in_app_or in Hb. destruct Hb as [Hb|Hb].
+        * destruct (aappend_keys_in _ _ _ _ Hb) as [->|Hb'].
+          -- apply in_or_app. right. left. reflexivity.
+          -- apply in_or_app. left. exact Hb'.
+        * apply in_or_app. right. right. exact Hb.
+  Qed.
+
+  Lemma fold_left_ext_in : forall {A B} (f g : A -> B -> A) l a,
+    (forall a b, In b l -> f a b = g a b) -> fold_left f l a = fold_left g l a.
+  Proof.
+    induction l as [|x l IH]; intros a H; simpl; [reflexivity|].
+    rewrite H by (left; reflexivity). apply IH. intros a' b Hb. apply H. right. exact Hb.
+  Qed.
+
+  (* under single_tag, the emitter's fold over tags_or_default is the fold over the first tag *)
+  Lemma group_single : forall l, single_tag l ->
+    group tag_key l = fold_left (fun d o => aappend d (tag_key (first_tag o)) o) l [].
+  Proof.
+    intros l H. unfold group. apply fold_left_ext_in. intros d o Hin.
+    unfold group_step. rewrite (single_tag_default o (H o Hin)). reflexivity.
+  Qed.
+  Lemma candidates_single : forall l, single_tag l ->
+    candidates tag_key l = fold_left (fun d o => aappend d (tag_key (first_tag o)) (first_tag o)) l [].
+  Proof.
+    intros l H. unfold candidates. apply fold_left_ext_in. intros d o Hin.
+    unfold cand_step. rewrite (single_tag_default o (H o Hin)). reflexivity.
+  Qed.
+
+  (* the mock groups ARE the endpoint groups (same order, same operations) up to key normalisation *)
+  Theorem groups_agree : forall l, single_tag l -> uniform (map first_tag l) ->
+    keyify (mock_groups l) = group tag_key l.
+  Proof.
+    intros l S U. rewrite (group_single l S). unfold mock_groups.
+    rewrite (fold_keyify (fun o => o) l []); [reflexivity | exact U].
+  Qed.
+
+  (* ... and every candidate list consists of the group's raw tag only, so the canonical tag chosen
+     by the emitter / ClientVisitor is the very tag MocksEmitter uses *)
+  Definition mock_cands (l : list op) : list (str * list str) :=
+    fold_left (fun d o => aappend d (first_tag o) (first_tag o)) l [].
+
+  Lemma aappend_all_key : forall (d : list (str * list str)) t,
+    Forall (fun tg => Forall (eq (fst tg)) (snd tg) /\ snd tg <> []) d ->
+    Forall (fun tg => Forall (eq (fst tg)) (snd tg) /\ snd tg <> []) (aappend d t t).
+  Proof.
+    induction d as [|[t0 g] d IH]; intros t H; simpl.
+    - constructor; [|constructor]. simpl. split; [constructor; [reflexivity | constructor] | discriminate].
+    - inversion H as [|? ? [H1 H2] Ht]; subst. destruct (str_eqb t t0) eqn:E.
+      + apply str_eqb_eq in E. subst t0. constructor; [|exact Ht]. simpl in *. split.
+        * apply Forall_app. split; [exact H1 | constructor; [reflexivity | constructor]].
+        * destruct g; discriminate.
+      + constructor; [split; assumption | apply IH, Ht].
+  Qed.
+
+  Lemma mock_cands_inv : forall l, Forall (fun tg => Forall (eq (fst tg)) (snd tg) /\ snd tg <> []) (mock_cands l).
+  Proof.
+    intro l. unfold mock_cands.
+    assert (G : forall l d, Forall (fun tg => Forall (eq (fst tg)) (snd tg) /\ snd tg <> []) d ->
+                Forall (fun tg => Forall (eq (fst tg)) (snd tg) /\ snd tg <> [])
+                       (fold_left (fun d o => aappend d (first_tag o) (first_tag o)) l d)).
+    { induction l0 as [|o l0 IH]; intros d Hd; simpl; [exact Hd|]. apply IH, aappend_all_key, Hd. }
+    apply G. constructor.
+  Qed.
+
+  Lemma str_ltb_irrefl : forall a, str_ltb a a = false.
+  Proof. induction a as [|x a IH]; simpl; [reflexivity|]. rewrite N.ltb_irrefl. exact IH. Qed.
+  Lemma score_gtb_irrefl : forall t, score_gtb score t t = false.
+  Proof.
+    intro t. unfold score_gtb. destruct (score t) as [[p w] u].
+    rewrite Bool.eqb_reflx, !N.eqb_refl. apply str_ltb_irrefl.
+  Qed.
+  Lemma max_by_same : forall t g, Forall (eq t) g -> max_by score t g = t.
+  Proof.
+    intros t g H. induction H as [|x g <- _ IH]; simpl; [reflexivity|].
+    rewrite score_gtb_irrefl. exact IH.
+  Qed.
+
+  Lemma aappend_fst : forall {V W} (d1 : list (str * list V)) (d2 : list (str * list W)) t (v : V) (w : W),
+    map fst d1 = map fst d2 -> map fst (aappend d1 t v) = map fst (aappend d2 t w).
+  Proof.
+    induction d1 as [|[k1 g1] d1 IHd]; destruct d2 as [|[k2 g2] d2]; simpl; intros t v w H; try discriminate; [reflexivity|].
+    inversion H as [[H1 H2]]. subst k2. destruct (str_eqb t k1); simpl; [rewrite H2; reflexivity|].
+    f_equal. apply IHd, H2.
+  Qed.
+
+  Lemma mock_cands_fst : forall l, map fst (mock_cands l) = map fst (mock_groups l).
+  Proof.
+    intro l. unfold mock_cands, mock_groups.
+    assert (G : forall l (d1 : list (str * list str)) (d2 : list (str * list op)), map fst d1 = map fst d2 ->
+      map fst (fold_left (fun d o => aappend d (first_tag o) (first_tag o)) l d1)
+      = map fst (fold_left (fun d o => aappend d (first_tag o) o) l d2)).
+    { induction l0 as [|o l0 IH]; intros d1 d2 H; simpl; [exact H|]. apply IH, aappend_fst, H. }
+    apply G. reflexivity.
+  Qed.
+
+  Theorem tags_agree : forall l, single_tag l -> uniform (map first_tag l) ->
+    emitter_tags tag_key score l = map (fun tg => (tag_key (fst tg), fst tg)) (mock_groups l).
+  Proof.
+    intros l S U. unfold emitter_tags. rewrite (candidates_single l S).
+    pose proof (fold_keyify (fun o => first_tag o) l [] U) as K. simpl in K.
+    fold (mock_cands l) in K. rewrite <- K. unfold keyify. rewrite map_map. simpl.
+    pose proof (mock_cands_inv l) as I. pose proof (mock_cands_fst l) as F.
+    assert (X : map (fun x : str * list str => (tag_key (fst x), emitter_best score (snd x))) (mock_cands l)
+                = map (fun x => (tag_key x, x)) (map fst (mock_cands l))).
+    { rewrite map_map. apply map_ext_in. intros [t g] Hin. simpl.
+      rewrite Forall_forall in I. destruct (I _ Hin) as [I1 I2]. simpl in *.
+      destruct g as [|x g]; [contradiction I2; reflexivity|]. simpl.
+      pose proof (Forall_inv I1) as E. pose proof (Forall_inv_tail I1) as I1'. simpl in E.
+      rewrite <- E, (max_by_same t g I1'). reflexivity. }
+    rewrite X, F, map_map. reflexivity.
+  Qed.
+
+  (* same methods per tag: every mock group is the endpoint group of its key *)
+  Theorem same_methods_partial : forall l, single_tag l -> uniform (map first_tag l) ->
+    same_methods tag_key l.
+  Proof.
+    intros l S U t g Hin. pose proof (group_keys_nodup tag_key l) as N.
+    rewrite <- (groups_agree l S U) in N. rewrite <- (groups_agree l S U).
+    apply alookup_in; [exact N|].
+    unfold keyify. apply in_map_iff. exists (t, g). split; [reflexivity | exact Hin].
+  Qed.
+End Grouping.
+
+(* ---------- refutations of the unguarded grouping statements ---------- *)
+Definition s_admin : str := [97;100;109;105;110].
+Definition ident_any (s : str) : bool := negb (is_nil s).
+(* F13a — one operation tagged Users and admin *)
+Definition ops_F13a : list op := [ {| o_id := s_a; o_method := s_GET; o_path := s_pa; o_tags := [s_Users; s_admin] |} ].
+Theorem refuted_F13a :
+  guard_F13a ops_F13a = false
+  /\ mock_props idf key_F07c ident_any ops_F13a = Some [s_users]
+  /\ client_props idf key_F07c key_F07c idf no_score ident_any ops_F13a = Some [s_admin; s_users]
+  /\ ~ same_tags idf key_F07c key_F07c idf no_score ident_any ops_F13a.
+Proof.
+  split; [reflexivity|]. split; [vm_compute; reflexivity|]. split; [vm_compute; reflexivity|].
+  intros (m & c & Hm & Hc & H). vm_compute in Hm, Hc. inversion Hm; inversion Hc; subst.
+  assert (X : In s_admin [s_users]) by (apply H; left; reflexivity).
+  destruct X as [X|[]]. discriminate.
+Qed.
+
+(* F13b — Users on one operation, users on another *)
+Definition ops_F13b : list op :=
+  [ {| o_id := s_a; o_method := s_GET; o_path := s_pa; o_tags := [s_Users] |};
+    {| o_id := s_b; o_method := s_POST; o_path := s_pa; o_tags := [s_users] |} ].
+Theorem refuted_F13b :
+  guard_F13a ops_F13b = true /\ guard_F13b key_F07c ops_F13b = false
+  /\ mock_props idf key_F07c ident_any ops_F13b = None
+  /\ mock_files idf key_F07c idf ops_F13b = [(s_users, (k_Mock ++ s_users ++ s_Client, [s_b]))]
+  /\ ~ same_methods key_F07c ops_F13b.
+Proof.
+  repeat split; try (vm_compute; reflexivity).
+  intro H. specialize (H s_Users [nth 0 ops_F13b op_F07c]).
+  assert (X : In (s_Users, [nth 0 ops_F13b op_F07c]) (mock_groups ops_F13b)) by (vm_compute; left; reflexivity).
+  apply H in X. vm_compute in X. discriminate.
+Qed.
+
+(* F01e — no operation at all *)
+Theorem refuted_F01e :
+  guard_F01e [] = false /\ mock_props idf idf ident_any [] = None
+  /\ client_props idf idf idf idf no_score ident_any [] = Some [].
+Proof. repeat split; vm_compute; reflexivity. Qed.
+
+Definition ops_ok13 : list op :=
+  [ {| o_id := s_a; o_method := s_GET; o_path := s_pa; o_tags := [s_Users] |};
+    {| o_id := s_b; o_method := s_POST; o_path := s_pa; o_tags := [] |};
+    {| o_id := s_foo; o_method := s_POST; o_path := s_a; o_tags := [s_Users] |} ].
+Theorem grouping_guard_nonvacuous :
+  single_tag ops_ok13 /\ uniform key_F07c (map first_tag ops_ok13) /\ length (mock_groups ops_ok13) = 2%nat.
+Proof.
+  split; [|split; [|reflexivity]].
+  - intros o [<-|[<-|[<-|[]]]]; simpl; lia.
+  - intros a b Ha Hb. vm_compute in Ha, Hb.
+    destruct Ha as [<-|[<-|[<-|[]]]]; destruct Hb as [<-|[<-|[<-|[]]]]; vm_compute; intro E; try reflexivity; discriminate.
+Qed.
+
+(* executable guards imply the Prop guards *)
+Lemma guard_F13a_single : forall l, guard_F13a l = true -> single_tag l.
+Proof.
+  intros l H o Hin. unfold guard_F13a in H. rewrite forallb_forall in H.
+  apply Nat.leb_le. apply H, Hin.
+Qed.
+Lemma guard_F13b_uniform : forall tk l, guard_F13b tk l = true -> uniform tk (map first_tag l).
+Proof.
+  intros tk l H a b Ha Hb K. unfold guard_F13b in H. rewrite forallb_forall in H.
+  specialize (H a Ha). rewrite forallb_forall in H. specialize (H b Hb).
+  rewrite K, str_eqb_refl in H. simpl in H. apply str_eqb_eq. exact H.
+Qed.
